@@ -127,6 +127,18 @@ pub fn run(c: &Case) -> Outcome {
                         }
                     }
                 }
+                // an image with fewer columns or rows than the rectangle does not contain "the rectangle's rows": the only
+                // outcome the property leaves is an error
+                {
+                    let (iw, ih) = (c.img_w as usize, c.img_h as usize);
+                    if iw < r - l + 1 || ih < b - t + 1 {
+                        out.fail(
+                            "blit:ok-although-image-smaller-than-rectangle",
+                            format!("fast_bitmap_transfer returned Ok for the in-window rectangle ({},{})-({},{}) ({} x {} pixels) with an image of {} x {} pixels (bpp {}, compressed {}): the rectangle's rows are not in the image; window {}x{}", l, t, r, b, r - l + 1, b - t + 1, iw, ih, c.bpp, c.compress, ww, wh),
+                        );
+                        return out;
+                    }
+                }
                 if let Some(img) = &c.image {
                     let (iw, ih) = (c.img_w as usize, c.img_h as usize);
                     if iw >= r - l + 1 && ih >= b - t + 1 && img.len() == iw * ih * 4 {
